@@ -47,6 +47,8 @@ impl RowsetWriter {
 
     pub async fn create_dir(&self) -> StorageResult<()> {
         if !self.io_backend.is_in_memory() {
+            #[cfg(feature = "verif")]
+            crate::verif::persist("rowset.mkdir.pre", &self.directory);
             tokio::fs::create_dir(&self.directory)
                 .await
                 .map_err(|err| err.into())
@@ -66,18 +68,26 @@ impl RowsetWriter {
                 guard.insert(path.as_ref().to_path_buf(), Bytes::from(data));
             }
             _ => {
+                #[cfg(feature = "verif")]
+                crate::verif::persist("file.create.pre", path.as_ref());
                 let file = OpenOptions::new()
                     .write(true)
                     .create_new(true)
                     .open(path.as_ref())
                     .await?;
+                #[cfg(feature = "verif")]
+                crate::verif::persist("file.create.post", path.as_ref());
 
                 let mut writer = BufWriter::new(file);
                 writer.write_all(&data).await?;
                 writer.flush().await?;
+                #[cfg(feature = "verif")]
+                crate::verif::persist("file.write.post", path.as_ref());
 
                 let file = writer.into_inner();
                 file.sync_data().await?;
+                #[cfg(feature = "verif")]
+                crate::verif::persist("file.fsync.post", path.as_ref());
             }
         }
 
@@ -87,6 +97,8 @@ impl RowsetWriter {
     async fn sync_dir(io_backend: &IOBackend, path: &impl AsRef<Path>) -> StorageResult<()> {
         if !io_backend.is_in_memory() {
             File::open(path.as_ref()).await?.sync_data().await?;
+            #[cfg(feature = "verif")]
+            crate::verif::persist("rowset.dirsync.post", path.as_ref());
         }
         Ok(())
     }
